@@ -99,6 +99,12 @@ pub struct PeerInfo { pub id_: u64, pub connected: bool, pub trusted: bool, pub 
 impl PeerInfo {
     #[verifier::external_body]
     pub fn id(&self) -> (r: &u64) ensures *r == self.id_ { unimplemented!() }
+    #[verifier::external_body]
+    pub fn is_connected(&self) -> (r: bool) ensures r == self.connected { unimplemented!() }
+    #[verifier::external_body]
+    pub fn is_trusted(&self) -> (r: bool) ensures r == self.trusted { unimplemented!() }
+    #[verifier::external_body]
+    pub fn is_archival(&self) -> (r: bool) ensures r == self.archival { unimplemented!() }
 }
 pub open spec fn peer_matches(p: PeerInfo, k: PeerKind) -> bool {
     p.connected && ((k is Trusted || k is TrustedArchival) ==> p.trusted) && ((k is Archival || k is TrustedArchival) ==> p.archival)
@@ -185,6 +191,14 @@ impl HeaderExClientHandler {
             state.tries_left == 1 ==> is_archival_kind(peer_kind),
 //@hint entry
         let mut state = state;
+//@end
+
+//@fn impl<S> HeaderExClientHandler<S> :: schedule_pending_requests_impl #1
+//@props C32
+//@exprblock "match peer_kind {"
+    // the peer filter of the sending loop: requests of a queue only go to connected peers of the queue's kind
+    fn schedule__peer_filter(peer: &PeerInfo, peer_kind: PeerKind) -> (b: bool)
+        ensures b == peer_matches(*peer, peer_kind)
 //@end
 
 //@fn impl<S> HeaderExClientHandler<S> :: poll
